@@ -484,7 +484,7 @@ func TestC10_IBC(t *testing.T) {
 	st := ev.New("C10", "TestC10_IBC", "a Haqq chain and an ibc-go simapp chain connected by a real transfer channel; 2-7 ops: transfers of an ERC20-origin token out and back, of a foreign coin with a registered ERC20 representation in and out, each relayed normally, to an invalid receiver (error acknowledgement) or timed out; pair toggles and explicit conversions in between; non-trivial = a history with a refunding transfer (error ack or timeout) and at least one other successful kind of step")
 	replayT = t
 	runCorpus(t, st)
-	runRapid(t, st, 40, 1500, func(rt *rapid.T) {
+	runRapid(t, st, 40, 3000, func(rt *rapid.T) {
 		if msg := runIBC(st, t, genIBCCase(rt)); msg != "" {
 			rt.Fatalf("%s", msg)
 		}
